@@ -408,3 +408,331 @@ Proof.
   - exact Hcode.
   - reflexivity.
 Qed.
+
+(* ====================================================================================
+   Memory operations.  The emitted code contains labels and branches, so it is executed
+   with a small-step relation over the image; `run_chunk_one` ties that relation to the
+   executable machine of Sem/RVSem.v.
+   ==================================================================================== *)
+Inductive one (im : image) : positive -> rstate -> positive -> rstate -> Prop :=
+| one_next : forall pc c a s s',
+    PM.find pc (code im) = Some c -> PM.find pc (addr_of im) = Some a ->
+    step im a c s = Next s' -> one im pc s (Pos.succ pc) s'
+| one_jump : forall pc c a s s' j,
+    PM.find pc (code im) = Some c -> PM.find pc (addr_of im) = Some a ->
+    step im a c s = Jump s' j -> one im pc s j s'.
+Inductive star (im : image) : positive -> rstate -> positive -> rstate -> Prop :=
+| star_refl : forall pc s, star im pc s pc s
+| star_step : forall pc s pc1 s1 pc2 s2, one im pc s pc1 s1 -> star im pc1 s1 pc2 s2 -> star im pc s pc2 s2.
+
+Lemma star_trans : forall im pc s pc1 s1 pc2 s2,
+  star im pc s pc1 s1 -> star im pc1 s1 pc2 s2 -> star im pc s pc2 s2.
+Proof. induction 1; intros; [assumption|]. econstructor; eauto. Qed.
+
+(* one step of the relation is one step of the executable machine *)
+Lemma run_chunk_one : forall im stop pc s pc' s' f,
+  one im pc s pc' s' -> pc <> stop ->
+  run_chunk (S f) im stop pc s = run_chunk f im stop pc' s'.
+Proof.
+  intros im stop pc s pc' s' f H Hne. cbn [run_chunk].
+  destruct (Pos.eqb_spec pc stop); [contradiction|].
+  inversion H; subst; rewrite H0, H1, H2; reflexivity.
+Qed.
+
+Definition at_code (im : image) (i : positive) (cs : list rcode) : Prop :=
+  forall n c, nth_error cs n = Some c ->
+    PM.find (padd i n) (code im) = Some c /\ exists a, PM.find (padd i n) (addr_of im) = Some a.
+
+Lemma padd_add : forall n m i, padd i (n + m) = padd (padd i n) m.
+Proof. induction n; cbn; intros; [reflexivity|]. apply IHn. Qed.
+Lemma at_code_app : forall im i c1 c2,
+  at_code im i (c1 ++ c2) -> at_code im i c1 /\ at_code im (padd i (List.length c1)) c2.
+Proof.
+  intros im i c1 c2 H. split; intros n c Hn.
+  - apply H. rewrite nth_error_app1; [assumption|]. apply nth_error_Some. congruence.
+  - rewrite <- padd_add. apply H. rewrite nth_error_app2 by lia.
+    now replace (List.length c1 + n - List.length c1)%nat with n by lia.
+Qed.
+(* code found in an image built by mk_image *)
+Lemma at_code_mk_image : forall pre cs post,
+  at_code (mk_image (pre ++ cs ++ post)) (padd 1 (List.length pre)) cs.
+Proof.
+  intros pre cs post n c Hn. rewrite <- padd_add.
+  assert (nth_error (pre ++ cs ++ post) (List.length pre + n) = Some c) as H.
+  { rewrite nth_error_app2 by lia. replace (List.length pre + n - List.length pre)%nat with n by lia.
+    rewrite nth_error_app1; [assumption|]. apply nth_error_Some. congruence. }
+  unfold mk_image. split; [now apply build_code_at|]. eexists. eapply build_addr_at; eauto.
+Qed.
+
+(* the labels inside a code fragment resolve to their own positions *)
+Definition labels_ok (im : image) (i : positive) (cs : list rcode) : Prop :=
+  forall n l, nth_error cs n = Some (LAB l) -> find_label (labels im) l = Some (padd i n).
+Definition placed (im : image) (i : positive) (cs : list rcode) : Prop := at_code im i cs /\ labels_ok im i cs.
+
+Lemma labels_ok_app : forall im i c1 c2,
+  labels_ok im i (c1 ++ c2) -> labels_ok im i c1 /\ labels_ok im (padd i (List.length c1)) c2.
+Proof.
+  intros im i c1 c2 H. split; intros n c Hn.
+  - apply H. rewrite nth_error_app1; [assumption|]. apply nth_error_Some. congruence.
+  - rewrite <- padd_add. apply H. rewrite nth_error_app2 by lia.
+    now replace (List.length c1 + n - List.length c1)%nat with n by lia.
+Qed.
+Lemma placed_app : forall im i c1 c2,
+  placed im i (c1 ++ c2) -> placed im i c1 /\ placed im (padd i (List.length c1)) c2.
+Proof.
+  intros im i c1 c2 [H1 H2]. apply at_code_app in H1 as [? ?]. apply labels_ok_app in H2 as [? ?].
+  split; split; assumption.
+Qed.
+
+(* satisfiable: any fragment of a program whose labels are pairwise distinct is `placed` *)
+Definition labels_of (cs : list rcode) : list string :=
+  flat_map (fun c => match c with LAB l => [l] | _ => [] end) cs.
+Lemma labels_of_app : forall a b, labels_of (a ++ b) = labels_of a ++ labels_of b.
+Proof. intros. unfold labels_of. apply flat_map_app. Qed.
+Lemma in_labels_of : forall l cs, In (LAB l) cs -> In l (labels_of cs).
+Proof. intros l cs H. unfold labels_of. apply in_flat_map. exists (LAB l). split; [assumption|now left]. Qed.
+Lemma nth_error_split_at : forall {X} (l : list X) n x,
+  nth_error l n = Some x -> l = firstn n l ++ x :: skipn (S n) l /\ List.length (firstn n l) = n.
+Proof.
+  induction l; intros n x H; destruct n; try discriminate; cbn in *.
+  - injection H as ->. auto.
+  - destruct (IHl _ _ H) as [E L]. split; [now rewrite <- E | now rewrite L].
+Qed.
+Lemma NoDup_app_not_in : forall {X} (a b : list X) x, NoDup (a ++ x :: b) -> ~ In x b.
+Proof.
+  intros X a b x H. apply NoDup_remove_2 in H. intro Hb. apply H. apply in_or_app. now right.
+Qed.
+Theorem placed_mk_image : forall pre cs post,
+  NoDup (labels_of (pre ++ cs ++ post)) ->
+  placed (mk_image (pre ++ cs ++ post)) (padd 1 (List.length pre)) cs.
+Proof.
+  intros pre cs post Hnd. split; [apply at_code_mk_image|].
+  intros n l Hn. destruct (nth_error_split_at _ _ _ Hn) as [E L].
+  set (f := firstn n cs) in *. set (sk := skipn (S n) cs) in *.
+  assert (Hw : pre ++ cs ++ post = (pre ++ f) ++ LAB l :: (sk ++ post)).
+  { rewrite E. rewrite <- !app_assoc. reflexivity. }
+  rewrite Hw in *. rewrite <- padd_add.
+  replace (List.length pre + n)%nat with (List.length (pre ++ f)) by (rewrite app_length; lia).
+  apply label_index_at.
+  rewrite labels_of_app in Hnd. cbn [labels_of flat_map app] in Hnd.
+  intro Hin. apply in_labels_of in Hin. revert Hin. eapply NoDup_app_not_in. exact Hnd.
+Qed.
+
+(* ---------- heap words ---------- *)
+Definition hword (s : rstate) (a : Z) : Z :=
+  match PM.find (key a) (heap s) with Some z => z | None => 0 end.
+Definition valid_addr (a : Z) : Prop := aligned a = true /\ in_heap a = true.
+Definition sstore (s : rstate) (a z : Z) : rstate :=
+  {| regs := regs s; heap := PM.add (key a) z (heap s); hw := Z.max (hw s) a |}.
+
+Lemma valid_pos : forall a, valid_addr a -> 0 < a.
+Proof. intros a [_ H]. unfold in_heap, HEAP_BASE in H. apply andb_prop in H as [H _]. apply Z.leb_le in H. lia. Qed.
+Lemma key_inj : forall a b, 0 < a -> key a = key b -> a = b.
+Proof.
+  intros a b Ha E. destruct (Z.lt_trichotomy a b) as [H|[H|H]]; [|assumption|].
+  - exfalso. apply (key_neq b a); [lia|assumption|congruence].
+  - exfalso. apply (key_neq a b); [lia|assumption|congruence].
+Qed.
+Lemma hword_sstore : forall s a z b, 0 < a -> hword (sstore s a z) b = if b =? a then z else hword s b.
+Proof.
+  intros s a z b Ha. unfold hword, sstore. cbn. destruct (Z.eqb_spec b a) as [->|Hne].
+  - now rewrite PM.gss.
+  - rewrite PM.gso; [reflexivity|]. intro E. symmetry in E. apply key_inj in E; [congruence|assumption].
+Qed.
+Lemma rget_sstore : forall s a z r, rget (sstore s a z) r = rget s r.
+Proof. reflexivity. Qed.
+Lemma hword_rset : forall s t v a, hword (rset s t v) a = hword s a.
+Proof. intros. unfold hword. now rewrite heap_rset. Qed.
+Lemma mload_valid : forall s a, valid_addr a -> mload s a = MOk (hword s a).
+Proof. intros s a [Ha Hh]. unfold mload. now rewrite Ha, Hh. Qed.
+Lemma mstore_valid : forall s a z, valid_addr a -> mstore s a (Some z) = MOk (sstore s a z).
+Proof. intros s a z [Ha Hh]. unfold mstore. now rewrite Ha, Hh. Qed.
+
+(* ---------- single instructions used by memory.rs ---------- *)
+Lemma step_LW : forall im pc x y i s b,
+  rget s y = Some b -> fits12 i = true -> valid_addr (b + i) ->
+  step im pc (LW x y i) s = Next (rset s x (Some (hword s (b + i)))).
+Proof. intros. cbn [step]. unfold ea, need, withm. now rewrite H0, H, mload_valid. Qed.
+Lemma step_SW : forall im pc x y i s b v,
+  rget s y = Some b -> rget s x = Some v -> fits12 i = true -> valid_addr (b + i) ->
+  step im pc (SW x y i) s = Next (sstore s (b + i) v).
+Proof. intros. cbn [step]. unfold ea, need, withm. now rewrite H1, H, H0, mstore_valid. Qed.
+Lemma step_ADDI : forall im pc x y i s a,
+  rget s y = Some a -> fits12 i = true -> step im pc (ADDI x y i) s = Next (rset s x (Some (wrap (a + i)))).
+Proof. intros. cbn [step]. unfold need. now rewrite H0, H. Qed.
+Lemma step_MV : forall im pc x y s, step im pc (MV x y) s = Next (rset s x (rget s y)).
+Proof. reflexivity. Qed.
+Lemma step_LAB : forall im pc l s, step im pc (LAB l) s = Next s.
+Proof. reflexivity. Qed.
+Lemma step_JAL0 : forall im pc l s j,
+  find_label (labels im) l = Some j -> step im pc (JAL ZERO l) s = Jump s j.
+Proof. intros. cbn [step]. unfold goto_label. now rewrite H. Qed.
+Lemma step_BEQ0_taken : forall im pc x l s j,
+  rget s x = Some 0 -> find_label (labels im) l = Some j -> step im pc (BEQ x ZERO l) s = Jump s j.
+Proof. intros. cbn [step]. unfold branch, need, goto_label. rewrite H. cbn. now rewrite H0. Qed.
+Lemma step_BEQ0_not : forall im pc x l s v,
+  rget s x = Some v -> v <> 0 -> step im pc (BEQ x ZERO l) s = Next s.
+Proof.
+  intros. cbn [step]. unfold branch, need. rewrite H. cbn. destruct (Z.eqb_spec v 0); [contradiction|reflexivity].
+Qed.
+
+(* stepping tactics: `H` is an at_code hypothesis, `n` the offset of the instruction *)
+Ltac exec_next H n lem :=
+  let Hc := fresh "Hc" in let a := fresh "a" in let Ha := fresh "Ha" in
+  destruct (H n _ eq_refl) as [Hc [a Ha]]; cbn [padd] in Hc, Ha;
+  eapply star_step; [eapply one_next; [exact Hc | exact Ha | eapply lem] | ]; clear Hc Ha.
+Ltac exec_jump H n lem :=
+  let Hc := fresh "Hc" in let a := fresh "a" in let Ha := fresh "Ha" in
+  destruct (H n _ eq_refl) as [Hc [a Ha]]; cbn [padd] in Hc, Ha;
+  eapply star_step; [eapply one_jump; [exact Hc | exact Ha | eapply lem] | ]; clear Hc Ha.
+
+Ltac regs :=
+  repeat first [ rewrite rget_sstore | rewrite rget_rset_same by (vm_compute; discriminate)
+               | rewrite rget_rset_other by (first [congruence | vm_compute; discriminate]) ].
+
+(* ---------- the abstract heap operations (DESIGN.md Appendix D, on words) ----------
+   A block's header is the word at the block's address (REFERENCE_COUNT_OFFSET =
+   NEXT_ELEMENT_OFFSET = 0): the reference count minus one for a live block, the link for a block
+   on a free list.  `hp`/`fp` are the linear and the lazy free list (registers HEAP and FREE). *)
+Record aheap := { words : Z -> Z; hp : Z; fp : Z }.
+Definition upd (w : Z -> Z) (a v : Z) : Z -> Z := fun x => if x =? a then v else w x.
+
+Definition a_share (p n : Z) (h : aheap) : aheap :=
+  if p =? 0 then h else {| words := upd (words h) p (wrap (words h p + n)); hp := hp h; fp := fp h |}.
+Definition a_erase (p : Z) (h : aheap) : aheap :=
+  if p =? 0 then h
+  else if words h p =? 0
+       then {| words := upd (words h) p (fp h); hp := hp h; fp := p |}
+       else {| words := upd (words h) p (wrap (words h p - 1)); hp := hp h; fp := fp h |}.
+Definition a_release (b : Z) (h : aheap) : aheap :=
+  {| words := upd (words h) b (hp h); hp := b; fp := fp h |}.
+
+(* the concrete state represents the abstract heap *)
+Definition represents (s : rstate) (h : aheap) : Prop :=
+  (forall a, hword s a = words h a) /\ rget s HEAP = Some (hp h) /\ rget s FREE = Some (fp h).
+
+(* ---------- share_block_n ---------- *)
+(* the emitted code, placed anywhere in a program, started at its first instruction with the
+   register t holding p (null or a block address), reaches its end with the heap changed as the
+   abstract `share` says; only TEMP is clobbered *)
+Theorem rv_share_block_n_refines : forall im i t n lc s h p,
+  placed im i (fst (r_share_block_n t n lc)) ->
+  t <> ZERO -> t <> TEMP -> t <> HEAP -> t <> FREE ->
+  represents s h -> rget s t = Some p -> (p = 0 \/ valid_addr p) -> fits12 (Z.of_N n) = true ->
+  exists s',
+    star im i s (padd i (List.length (fst (r_share_block_n t n lc)))) s' /\
+    represents s' (a_share p (Z.of_N n) h) /\
+    (forall r, r <> TEMP -> rget s' r = rget s r).
+Proof.
+  intros im i t n lc s h p [Hcode HL] Ht0 Ht1 Ht2 Ht3 (Hw & Hhp & Hfp) Hp Hvalid Hfit.
+  cbn [fst r_share_block_n skip_if_zero app List.length] in *. cbn [padd].
+  change REFERENCE_COUNT_OFFSET with 0 in *.
+  destruct (Z.eqb_spec p 0) as [->|Hp0].
+  - (* null: the branch skips the update *)
+    exists s. split; [|split].
+    + exec_jump Hcode 0%nat step_BEQ0_taken; [exact Hp | apply (HL 4%nat _ eq_refl) |].
+      exec_next Hcode 4%nat step_LAB. apply star_refl.
+    + unfold a_share. cbn. now repeat split.
+    + reflexivity.
+  - destruct Hvalid as [?|Hvalid]; [contradiction|].
+    assert (Hv0 : valid_addr (p + 0)) by now rewrite Z.add_0_r.
+    eexists. split; [|split].
+    + exec_next Hcode 0%nat step_BEQ0_not; [exact Hp | exact Hp0 |].
+      exec_next Hcode 1%nat step_LW; [exact Hp | reflexivity | exact Hv0 |].
+      exec_next Hcode 2%nat step_ADDI; [regs; reflexivity | exact Hfit |].
+      exec_next Hcode 3%nat step_SW; [regs; exact Hp | regs; reflexivity | reflexivity | exact Hv0 |].
+      exec_next Hcode 4%nat step_LAB. apply star_refl.
+    + unfold a_share. destruct (Z.eqb_spec p 0); [contradiction|]. cbn [words hp fp].
+      split; [|split].
+      * intros a. rewrite hword_sstore by (rewrite Z.add_0_r; now apply valid_pos).
+        rewrite !hword_rset, !Z.add_0_r. cbn [words]. unfold upd. destruct (a =? p); [now rewrite Hw|apply Hw].
+      * regs. exact Hhp.
+      * regs. exact Hfp.
+    + intros r Hr. regs. reflexivity.
+Qed.
+
+(* ---------- erase_block ---------- *)
+(* clobbers TEMP; FREE changes as the abstract `erase` says *)
+Theorem rv_erase_block_refines : forall im i t lc s h p,
+  placed im i (fst (r_erase_block t lc)) ->
+  t <> ZERO -> t <> TEMP -> t <> HEAP -> t <> FREE ->
+  represents s h -> rget s t = Some p -> (p = 0 \/ valid_addr p) ->
+  exists s',
+    star im i s (padd i (List.length (fst (r_erase_block t lc)))) s' /\
+    represents s' (a_erase p h) /\
+    (forall r, r <> TEMP -> r <> FREE -> rget s' r = rget s r).
+Proof.
+  intros im i t lc s h p [Hcode HL] Ht0 Ht1 Ht2 Ht3 (Hw & Hhp & Hfp) Hp Hvalid.
+  cbn [fst snd r_erase_block if_zero_then_else skip_if_zero app List.length] in *. cbn [padd].
+  change REFERENCE_COUNT_OFFSET with 0 in *. change NEXT_ELEMENT_OFFSET with 0 in *.
+  destruct (Z.eqb_spec p 0) as [->|Hp0].
+  - exists s. split; [|split].
+    + exec_jump Hcode 0%nat step_BEQ0_taken; [exact Hp | apply (HL 10%nat _ eq_refl) |].
+      exec_next Hcode 10%nat step_LAB. apply star_refl.
+    + unfold a_erase. cbn. now repeat split.
+    + reflexivity.
+  - destruct Hvalid as [?|Hvalid]; [contradiction|].
+    assert (Hv0 : valid_addr (p + 0)) by now rewrite Z.add_0_r.
+    assert (Hpos : 0 < p + 0) by (now apply valid_pos).
+    destruct (Z.eqb_spec (hword s (p + 0)) 0) as [Hz|Hnz].
+    + (* reference count 0: the block goes onto the lazy free list *)
+      eexists. split; [|split].
+      * exec_next Hcode 0%nat step_BEQ0_not; [exact Hp | exact Hp0 |].
+        exec_next Hcode 1%nat step_LW; [exact Hp | reflexivity | exact Hv0 |].
+        exec_jump Hcode 2%nat step_BEQ0_taken; [regs; now rewrite Hz | apply (HL 6%nat _ eq_refl) |].
+        exec_next Hcode 6%nat step_LAB.
+        exec_next Hcode 7%nat step_SW; [regs; exact Hp | regs; exact Hfp | reflexivity | exact Hv0 |].
+        exec_next Hcode 8%nat step_MV.
+        exec_next Hcode 9%nat step_LAB.
+        exec_next Hcode 10%nat step_LAB. apply star_refl.
+      * unfold a_erase. destruct (Z.eqb_spec p 0); [contradiction|].
+        rewrite Z.add_0_r in *. rewrite <- Hw, Hz. cbn [Z.eqb].
+        split; [|split]; cbn [words hp fp].
+        -- intros a. rewrite hword_rset, hword_sstore by assumption. rewrite hword_rset.
+           unfold upd. destruct (a =? p); [reflexivity|apply Hw].
+        -- regs. exact Hhp.
+        -- regs. exact Hp.
+      * intros r Hr Hr'. regs. reflexivity.
+    + (* other references remain: decrement *)
+      eexists. split; [|split].
+      * exec_next Hcode 0%nat step_BEQ0_not; [exact Hp | exact Hp0 |].
+        exec_next Hcode 1%nat step_LW; [exact Hp | reflexivity | exact Hv0 |].
+        exec_next Hcode 2%nat step_BEQ0_not; [regs; reflexivity | exact Hnz |].
+        exec_next Hcode 3%nat step_ADDI; [regs; reflexivity | reflexivity |].
+        exec_next Hcode 4%nat step_SW; [regs; exact Hp | regs; reflexivity | reflexivity | exact Hv0 |].
+        exec_jump Hcode 5%nat step_JAL0; [apply (HL 9%nat _ eq_refl) |].
+        exec_next Hcode 9%nat step_LAB.
+        exec_next Hcode 10%nat step_LAB. apply star_refl.
+      * unfold a_erase. destruct (Z.eqb_spec p 0); [contradiction|].
+        rewrite Z.add_0_r in *. rewrite <- Hw. destruct (Z.eqb_spec (hword s p) 0); [contradiction|].
+        split; [|split]; cbn [words hp fp].
+        -- intros a. rewrite hword_sstore by assumption. rewrite !hword_rset.
+           unfold upd. destruct (a =? p); [reflexivity|apply Hw].
+        -- regs. exact Hhp.
+        -- regs. exact Hfp.
+      * intros r Hr Hr'. regs. reflexivity.
+Qed.
+
+(* ---------- release_block (load, release mode) ---------- *)
+Theorem rv_release_block_refines : forall im i t s h b,
+  placed im i (release_block t) ->
+  t <> ZERO -> t <> HEAP ->
+  represents s h -> rget s t = Some b -> valid_addr b ->
+  exists s',
+    star im i s (padd i 2) s' /\
+    represents s' (a_release b h) /\
+    (forall r, r <> HEAP -> rget s' r = rget s r).
+Proof.
+  intros im i t s h b [Hcode HL] Ht0 Ht2 (Hw & Hhp & Hfp) Hb Hvalid.
+  unfold release_block in *. change NEXT_ELEMENT_OFFSET with 0 in *. cbn [padd].
+  assert (Hv0 : valid_addr (b + 0)) by now rewrite Z.add_0_r.
+  assert (Hpos : 0 < b + 0) by (now apply valid_pos).
+  eexists. split; [|split].
+  - exec_next Hcode 0%nat step_SW; [exact Hb | exact Hhp | reflexivity | exact Hv0 |].
+    exec_next Hcode 1%nat step_MV. apply star_refl.
+  - rewrite Z.add_0_r in *. split; [|split]; cbn [words hp fp a_release].
+    + intros a. rewrite hword_rset, hword_sstore by assumption. unfold upd. destruct (a =? b); [reflexivity|apply Hw].
+    + regs. exact Hb.
+    + regs. exact Hfp.
+  - intros r Hr. regs. reflexivity.
+Qed.
